@@ -85,6 +85,44 @@ CLAIMED = {
                 "generated from_dict/to_dict. One known finding (nullable enums pass unlisted values through).",
         "note": "Trusted: the symbolic semantics of the Python subset (pyvc.symexec), assumed library contracts listed in the evidence, the native run of the generator that renders the schematic package; the step from schematic documents to all documents is the induction/frame argument of DESIGN 2.4 (paper). Member naming and duplicate detection in values_from_list are parser-side obligations."
     },
+    "C15": {
+        "engines": ["B"], "level": "proof",
+        "technique": "contract-based deductive verification: ast->z3 symbolic execution of the real merge_properties "
+                     "family for all 256 ordered pairs of property kinds against the `narrowest` contract",
+        "text": "merge_properties and its helpers are executed symbolically for every ordered pair of the 16 property "
+                "classes with fully symbolic attributes; kind = narrowest-or-diagnostic, required = or, later default "
+                "wins and is re-validated against the result kind/value set, later description/example win, arguments "
+                "not mutated, and order independence of diagnostic/kind/required are proved per path. Two known "
+                "findings; one defect repaired by a fix: commit. _process_properties / _process_models are covered by "
+                "bounded stand-ins (labelled).",
+        "note": "Trusted: the symbolic semantics of the Python subset; convert_value used by summary (C13); class "
+                "invariants assumed of the inputs (stored defaults are conversions of their raw value; enum value sets "
+                "non-empty and of value_type). Bounded stand-ins are not counted as proved.",
+    },
+    "C20": {
+        "engines": ["B"], "level": "proof",
+        "technique": "contract-based deductive verification: ast->z3 symbolic execution of the reference resolvers over "
+                     "lazily materialised symbolic tables",
+        "text": "_property_from_ref (for each of the 16 registered kinds), Schemas.add_dependencies and "
+                "parameter_from_reference are proved against contracts: the registered object itself is reused (single "
+                "class), the sibling default is re-validated, dependencies are recorded in a table-owned set, failures "
+                "touch nothing; copy >= read for component parameters; request-body reference chains by a bounded stand-in.",
+        "note": "Trusted: the symbolic semantics of the Python subset, LazyMap model of dicts of unknown content, "
+                "urlparse. Byte-identity of endpoint modules (inline vs referenced) is not decided (needs C12(b)).",
+    },
+    "C06": {
+        "engines": ["B"], "level": "proof",
+        "technique": "contract-based deductive verification: exit-status contract of cli.handle_errors by an inductive "
+                     "loop invariant, exception freedom of every convert_value path, rejection path of "
+                     "GeneratorData.from_dict, syntactic raise containment",
+        "text": "handle_errors is proved (for any number of diagnostics, by invariant) to exit 1 iff an ERROR-level "
+                "diagnostic exists or fail_on_warning with a non-empty list; every path of every scalar convert_value "
+                "is proved exception-free for any JSON value; a document that fails validation is proved to yield one "
+                "error diagnostic for any JSON value; every raise statement is checked for containment (one known "
+                "finding pinned by the suite). Termination and cascade behaviour: bounded stand-ins.",
+        "note": "Not decided: exceptions inside pydantic/ruamel/jinja2, RecursionError, encoding errors, 'nothing "
+                "written on rejection' (effect contract, see C19). Bounded stand-ins are not counted as proved.",
+    },
 }
 
 _NOT_BUILT = "not built yet in this round (planned per DESIGN.md section 7); no claim is made"
